@@ -381,7 +381,44 @@ def run_scale_job(job, prop, seed, tag):
 
     workers = 4 if eng == "e1" else NCPU
     with ThreadPoolExecutor(max_workers=workers) as ex:
-        return list(ex.map(one, cases))
+        results = list(ex.map(one, cases))
+    # growth law on CPU time of the collecting thread (logical steps are covered by the counters;
+    # this catches extra work the counters do not see). A verdict needs BOTH a super-linear growth
+    # factor between 4N and 16N AND an absolute per-element cost far above normal, and is
+    # re-measured once before it is reported.
+    if eng == "e1" and job.get("growth"):
+        def measure(sh, n, st, sd):
+            r = one((sh, n, st, sd))
+            return getattr(r, "scale_row", {}) or {}
+        rows = {}
+        for r in results:
+            row = getattr(r, "scale_row", None)
+            if row and row.get("shape"):
+                rows[(row["shape"], row["n"], row["stack_kib"])] = row
+        for (sh, n4, n16) in job["growth"]:
+            for st in job["stacks"]:
+                a, b = rows.get((sh, n4, st)), rows.get((sh, n16, st))
+                if not a or not b or "collect_cpu_us" not in b:
+                    continue
+                def suspicious(a, b):
+                    factor_bad = b["collect_cpu_us"] > 3 * (n16 / n4) * a["collect_cpu_us"] + 100000
+                    per_elem = b["collect_cpu_us"] / max(1, b["n"] + b["edges"])
+                    return factor_bad and per_elem > 5.0, per_elem
+                bad, per_elem = suspicious(a, b)
+                note = {"shape": sh, "n_small": n4, "n_large": n16, "cpu_us_small": a["collect_cpu_us"], "cpu_us_large": b["collect_cpu_us"], "us_per_element_large": round(per_elem, 3)}
+                results[0].summary.setdefault("extra", {})
+                results[0].summary.setdefault("samples", []).append("growth " + json.dumps(note))
+                if bad:
+                    sd = job.get("seeds", [seed])[0]
+                    a2, b2 = measure(sh, n4, st, sd), measure(sh, n16, st, sd)
+                    if a2 and b2 and suspicious(a2, b2)[0]:
+                        coord = "scale growth shape=%s n=%d->%d stack_kib=%d" % (sh, n4, n16, st)
+                        results[0].violations.append({
+                            "kind": "violation", "prop": "C15", "rule": "scale", "hard": False,
+                            "msg": "collection time is not linear in objects + adoptions: %s (confirmed by a second measurement: %d us -> %d us)" % (json.dumps(note), a2["collect_cpu_us"], b2["collect_cpu_us"]),
+                            "coord": coord, "class": "FULL", "engine": eng, "known_sig": "", "ops": "", "scale": True,
+                            "job_args": ["scale", "--shape", sh, "--n", str(n16), "--stack-kib", str(st), "--seed", str(sd)], "log": []})
+    return results
 
 
 def run_miri_child_job(job, prop, seed, tag):
